@@ -7,8 +7,9 @@ pub mod c11;
 pub mod c12;
 pub mod c13;
 pub mod c15;
+pub mod c16;
 pub mod c19;
 
 pub fn all() -> Vec<Property> {
-    vec![c08::property(), c09::property(), c10::property(), c11::property(), c12::property(), c13::property(), c15::property(), c19::property()]
+    vec![c08::property(), c09::property(), c10::property(), c11::property(), c12::property(), c13::property(), c15::property(), c16::property(), c19::property()]
 }
